@@ -25,6 +25,7 @@ def parseStmt (j : Json) : Stmt :=
   | "assign" => .assign (fldNat j "x") (parseIndex (fld j "idx")) (parseValueI (fld j "val"))
   | "read_idx" => .readIdx (fldNat j "x") (parseIndex (fld j "idx"))
   | "read_sum" => .readSum (fldNat j "x")
+  | "poke" => .poke (fldNat j "x") (fldNat j "k") (fldInt j "v")
   | _ => .read (fldNat j "x")
 
 def obsJ : Obs → Json
